@@ -12,6 +12,7 @@ locking of the wrappers around third-party loggers. The harness `h logsafe` runs
 import GoUtils.Proofs.Sink
 import GoUtils.Generated.Logs
 import GoUtils.Verdict
+import GoUtils.Proofs.Members
 namespace GoUtils.Props.C13
 open GoUtils GoUtils.Sink
 
@@ -54,5 +55,22 @@ theorem C13_lock_modes_in_source :
     Generated.Logs.ok = true ∧ Generated.Logs.stringWriterReadsExclusive = true ∧
     Generated.Logs.multipleWritersSnapshotUnderLock = true ∧ Generated.Logs.jsonSettersExclusive = true ∧
     Generated.Logs.compositeMembersUnderWriteLock = true := by decide
+
+/-- "composite loggers deliver every message to every member": a member whose Append has returned is a member for
+    every later message, for every number of producers appending at once — under the lock mode found in the source -/
+theorem C13_composite_keeps_members_holds (b : Bool) (h : b = true) : Members.KeepsMembers b := by
+  subst h; exact Members.keeps_of_exclusive
+
+theorem C13_composite_keeps_members_fails (b : Bool) (h : b = false) : ¬ Members.KeepsMembers b := by
+  subst h; exact Members.loses_of_shared
+
+def C13_verdict_composite_keeps_members : Verdict (Members.KeepsMembers Generated.Logs.compositeMembersUnderWriteLock) := by
+  first
+  | exact .holds (C13_composite_keeps_members_holds _ (by decide))
+  | exact .fails (C13_composite_keeps_members_fails _ (by decide))
+
+/-- non-vacuity: three producers appending one after the other to a composite of two members -/
+example : (Members.run (Members.St.init [10, 11]) (Members.atomicSchedule [0, 1, 2])).map (·.members) = some [10, 11, 0, 1, 2] := by
+  decide
 
 end GoUtils.Props.C13
